@@ -21,7 +21,8 @@
       in Proofs/CalcErrorMore.lean), for the document class `DocC` (precise rule,
       prices not including tax, lines in the document currency without breakdown,
       percentage (≤ 100 %) or fixed (≤ currency + 2 decimals) line discounts and
-      charges, percentage document discounts and charges, ordinary tax combos,
+      charges, percentage or fixed document discounts and charges, tax combos with or
+      without surcharge, retained categories,
       percentage or fixed advances): `calc_eq_spec` — every presented total is the
       half-away rounding at currency precision of a working value whose distance
       from `exactQ d` is at most (number of contributing rounding points) × half a
@@ -33,7 +34,7 @@
   Not proved (exercised by the correspondence and the error-bound oracle only):
     the same bound outside `DocC`: lines with a breakdown, foreign-currency items,
     rate × quantity charges, percentages with an explicit base, fixed amounts finer
-    than currency + 2 decimals, included taxes (`prices_include`), tax surcharges, the `currency` rule; of the presented rows only the line totals, the
+    than currency + 2 decimals, included taxes (`prices_include`), the `currency` rule; of the presented rows only the line totals, the
     advances and the due dates are covered (`calc_lines_spec`, `calc_payment_rows_spec`),
     not the line sums / discount rows nor the rows of the tax summary.
 -/
@@ -559,14 +560,16 @@ example : DocA adjDoc ∧ adjDoc.includes = none ∧ sumW adjDoc.lines = 8 ∧ t
 
 /-! ## the tax clause (precise rule, prices not including tax)
 
-`taxW d G = G + Σ_lines lineW l·#combos l + Σ_{document discounts, charges} (1 + sumW)·#combos`:
-one rounding per rate group (`G` = number of rate groups of the presented tax summary, `groupsT t`)
-plus the error the row totals carry into the tax (every percentage ≤ 100 %). -/
+`taxW d G = G + Σ_lines lineW l·comboW l + Σ_{document discounts, charges} (1 + sumW)·comboW`:
+one rounding per rate group and one more per group surcharge (`G = groupsT t`, counted on the
+presented tax summary; without surcharges the number of rate groups) plus the error the row totals
+carry into the tax (`comboW` = number of combos, a combo with a surcharge counting twice; every
+percentage and surcharge ≤ 100 %). -/
 
 /-- (2) class `DocT` (class `DocA`; no included tax; every tax combo on a line or on a document
-discount / charge has no surcharge and is exempt or a percentage of magnitude ≤ 100 %, and whether it
-is retained is a function `ret` of its category alone):
-with `G` rate groups in the tax summary, if `taxW d G < 100` the presented tax, and if
+discount / charge is exempt or a percentage of magnitude ≤ 100 %, with or without a surcharge ≤ 100 %,
+and whether it is retained is a function `ret` of its category alone):
+with `G` rounding points in the tax summary, if `taxW d G < 100` the presented tax, and if
 `totalW d + taxW d G < 100` the presented total with tax, are less than one minor unit from the exact
 rational values of `Spec.C01.exactQ` -/
 theorem presented_tax_within_one_unit (ret : String → Bool) (d : Doc) (out : Out) (t : Totals) (hd : DocT ret d)
@@ -590,7 +593,7 @@ theorem adjDoc_tax_class : DocT retEx adjDoc := by
   have hcb : ∀ (cat k : String) (v : ℤ) (e : ℕ) (r : Bool), r = retEx cat → |(⟨v, e⟩ : Amount).toRat| ≤ 1 →
       ComboOk retEx { cat := cat, country := "", key := k, percent := some ⟨⟨v, e⟩⟩, surcharge := none, ext := "", retained := r } := by
     intro cat k v e r hr h
-    refine ⟨hr, rfl, ?_⟩
+    refine ⟨hr, ?_, fun sp hs => by cases hs⟩
     intro p hp
     simp only [Option.some.injEq] at hp
     subst hp
@@ -626,6 +629,42 @@ example : DocT retEx adjDoc ∧
       (fun t => (groupsT t, taxW adjDoc (groupsT t), twtW adjDoc (groupsT t), t.tax, t.totalWithTax)) =
       some (3, 23, 49, ⟨544, 2⟩, ⟨3675, 2⟩) :=
   ⟨adjDoc_tax_class, by decide⟩
+
+/-- one line 7 × 3.333 carrying 21 % VAT with an equivalence surcharge of 5.2 % -/
+def surDoc : Doc :=
+  { cur := "EUR", c := 2, rule := .precise, includes := none,
+    lines := [{ qty := ⟨7, 0⟩, item := some { price := some ⟨3333, 3⟩, cur := "", sub := 2, alts := [] },
+                discounts := [], charges := [], breakdown := [],
+                taxes := [{ cat := "VAT", country := "", key := "standard", percent := some ⟨⟨21, 2⟩⟩,
+                            surcharge := some ⟨⟨52, 3⟩⟩, ext := "", retained := false }] }],
+    discounts := [], charges := [], rates := [], rounding := none, hasPayment := false, advances := [], dues := [] }
+
+/-- non-vacuity of (2) with a surcharge: one rate group with a surcharge (two rounding points),
+`taxW = 2 + 1·2 = 4`; exact tax 23.331 × (0.21 + 0.052) = 6.112722 (presented 6.11), exact total with
+tax 29.443722 (presented 29.44) -/
+example : DocT retEx surDoc ∧
+    ((calculate exactOps surDoc).toOption.bind (·.totals)).map
+      (fun t => (groupsT t, taxW surDoc (groupsT t), twtW surDoc (groupsT t), t.tax, t.totalWithTax)) =
+      some (2, 4, 5, ⟨611, 2⟩, ⟨2944, 2⟩) := by
+  refine ⟨⟨⟨rfl, by decide, ?_, by simp [surDoc], by simp [surDoc]⟩, rfl, ?_, by simp [surDoc], by simp [surDoc]⟩, by decide⟩
+  · intro l hl
+    simp only [surDoc, List.mem_singleton] at hl
+    subst hl
+    exact ⟨_, _, rfl, rfl, rfl, rfl, by simp, by simp⟩
+  · intro l hl cb hcb
+    simp only [surDoc, List.mem_singleton] at hl
+    subst hl
+    simp only [List.mem_singleton] at hcb
+    subst hcb
+    refine ⟨by decide, ?_, ?_⟩
+    · intro p hp
+      simp only [Option.some.injEq] at hp
+      subst hp
+      norm_num [Amount.toRat, pow10]
+    · intro sp hs
+      simp only [Option.some.injEq] at hs
+      subst hs
+      norm_num [Amount.toRat, pow10]
 
 /-! ## payable, advances, due
 
